@@ -226,7 +226,7 @@ def evaluate_expression(expr, options=None, locals_=None, builtins=True):
 
         # Compute the function arguments
         func_args = [evaluate_expression(arg, options, locals_, builtins) for arg in expr['function']['args']] \
-            if 'args' in expr['function'] else None
+            if 'args' in expr['function'] else []
 
         # Global/local function?
         if locals_ is not None and func_name in locals_:
